@@ -1024,3 +1024,42 @@ def rule_free_tree_null(ctx, rep, config="c-lib"):
                               "documented no-op, and what a caller does with the NULL root of a recovery-off parse -- crashes" % (c.callee, d.where()),
                               where=c.where(), witness=[c.where(), d.where()])
     rep.floor("T4-null-root", "calls of yaep_free_tree that need a non-null root", n, 1)
+
+
+def rule_unmark_unreserved(ctx, rep, config="c-lib"):
+    rep.rule("R13-unmark", "after the costing pass find_minimal_translation clears the `used' mark of a single NIL / ERROR node only when the node is not part of the kept "
+                           "translation: every store of 0 into a `used' mark there is controlled by the reservation lookup of that node having found nothing (the "
+                           "traversal of the kept translation reserved every node that stays) -- otherwise make_parse releases a node the returned tree refers to")
+    p = ctx.prog(config)
+    f = p.fn("find_minimal_translation")
+    rep.cover(p, [f.name])
+    lookups = [c for c in f.calls() if c.callee == "find_hash_table_entry" or ((p.m.functions.get(c.callee or "") is not None)
+                                                                              and p.m.functions[c.callee].d.get("srcname") == "find_entry")]
+    n = 0
+    for s_ in f.all_insts():
+        if s_.op != "store" or const_int(s_.ops[0]) != 0:
+            continue
+        lf = resolve_addr(f, s_.ops[1]).last_field()
+        if lf not in ("yaep_nil.used", "yaep_error.used"):
+            continue
+        n += 1
+        key = "find_minimal_translation/unmark-%s#%d" % (lf.split(".")[0][5:], n)
+        ok = False
+        for (cc, pol) in _controlling_conditions(f, s_.block.name):
+            if cc.d["pred"] not in ("eq", "ne") or not any(strip_casts(f, o).get("k") == "null" for o in cc.ops):
+                continue
+            for o in cc.ops:
+                l_ = f.inst(strip_casts(f, o))
+                if l_ is not None and l_.op == "load":
+                    src = f.inst(strip_casts(f, l_.ops[0]))
+                    while src is not None and src.op == "bitcast":
+                        src = f.inst(strip_casts(f, src.ops[0]))
+                    if src is not None and any(src is c for c in lookups) and (cc.d["pred"] == "eq") == pol:
+                        ok = True
+        if ok:
+            rep.ok("R13-unmark", key, sample={"store": s_.where()})
+        else:
+            rep.violation("R13-unmark", key, "the `used' mark of the single %s node is cleared without the test that the node was not reserved by the traversal of the kept "
+                          "translation: when the node is in the minimal translation make_parse releases it although the tree returned refers to it (and "
+                          "yaep_free_tree releases it again)" % ("NIL" if "nil" in lf else "ERROR"), where=s_.where(), witness=[s_.where()])
+    rep.floor("R13-unmark", "clearings of a `used' mark after the costing pass", n, 2)
